@@ -81,6 +81,7 @@ import (
 	"io"
 	"log"
 	"math"
+	"math/big"
 	"net/http"
 	"net/url"
 	"sort"
@@ -112,7 +113,25 @@ var c09ReqURLs = []string{"https://a.test/a/page.html", "https://a.test:8443/a/p
 type c09Time struct {
 	name string
 	d, x int64 // t - date, expires - t
-	nsec int64
+	nsec int64 // >= 0: nanoseconds of the verification instant; < 0: respell() = -nsec, instant on the second
+	// respell != 0: AFTER signing, the decimal text of the date (1, 3) / expires (2) parameter in the Signature header is
+	// replaced by that of the value plus 2^64 (1, 2) or 2^65 (3).  Nobody needs the key for that; the parameter as
+	// written is far outside the window (and outside the range of a structured-header integer), so the exchange must be
+	// refused - a parser whose accumulator wraps reads the honest value back and the signature still matches.
+}
+
+func (t c09Time) ns() int64 {
+	if t.nsec < 0 {
+		return 0
+	}
+	return t.nsec
+}
+
+func (t c09Time) respell() int {
+	if t.nsec < 0 {
+		return int(-t.nsec)
+	}
+	return 0
 }
 
 func c09Times() []c09Time {
@@ -163,6 +182,11 @@ func c09Times() []c09Time {
 		abs("date=-2^62,expires=t+1000", -(1<<62), c09T0+1000),
 		abs("date=-1000,expires=MaxInt64", -1000, maxI),
 		abs("date=MinInt64,expires=MaxInt64", minI, maxI),
+	)
+	out = append(out,
+		c09Time{"date written as date+2^64 after signing", 1000, 1000, -1},
+		c09Time{"expires written as expires+2^64 after signing", 1000, 1000, -2},
+		c09Time{"date written as date+2^65 after signing", 1000, 1000, -3},
 	)
 	// de-duplicate by (d, x, nsec), keep first
 	seen := map[[3]int64]bool{}
@@ -523,7 +547,7 @@ func (cs *c09Case) input(i int, respNames []string) refpolicy.Input {
 	s := cs.sigs[i]
 	in := refpolicy.Input{
 		Version: string(c09Versions[cs.ver]),
-		TSec:    c09T0, TNsec: s.tm.nsec,
+		TSec:    c09T0, TNsec: s.tm.ns(),
 		Date: c09T0 - s.tm.d, Expires: c09T0 + s.tm.x,
 		Status: cs.status, ResponseHeaders: respNames, CacheControl: cs.cc,
 		ExpiresPresent: cs.expires, ContentType: cs.ctype,
@@ -675,6 +699,21 @@ func c09Build(cs *c09Case, seed int64) (*signedexchange.Exchange, []string, erro
 			}
 			hv = strings.Replace(hv, old, `integrity="`+sg.integrity+`"`, 1)
 		}
+		if r := sg.tm.respell(); r != 0 {
+			name, val, shift := "date", c09T0-sg.tm.d, uint(64)
+			if r == 2 {
+				name, val = "expires", c09T0+sg.tm.x
+			}
+			if r == 3 {
+				shift = 65
+			}
+			old := fmt.Sprintf("%s=%d", name, val)
+			if strings.Count(hv, old) != 1 {
+				return nil, nil, fmt.Errorf("%s parameter not found once in %q", name, hv)
+			}
+			written := new(big.Int).Add(new(big.Int).Lsh(bigOne, shift), bigInt(val))
+			hv = strings.Replace(hv, old, name+"="+written.String(), 1)
+		}
 		parts = append(parts, hv)
 	}
 	e.SignatureHeaderValue = strings.Join(parts, ",")
@@ -769,7 +808,7 @@ func c09Describe(cs *c09Case) string {
 	}
 	fmt.Fprintf(&b, " status=%d content-type=%v expires-header=%v (empty value: %v) cache-control=%q extra-response-header=%q", cs.status, cs.ctype, cs.expires, cs.expEmpty, cs.cc, cs.respExtra)
 	for i, s := range cs.sigs {
-		fmt.Fprintf(&b, " | sig%d: t=%d.%09d date=%d expires=%d (%s) validity-url=%q integrity=%q", i, c09T0, s.tm.nsec, c09T0-s.tm.d, c09T0+s.tm.x, s.tm.name, s.validity, s.integrity)
+		fmt.Fprintf(&b, " | sig%d: t=%d.%09d date=%d expires=%d (%s) validity-url=%q integrity=%q", i, c09T0, s.tm.ns(), c09T0-s.tm.d, c09T0+s.tm.x, s.tm.name, s.validity, s.integrity)
 		if s.wrongKey {
 			b.WriteString(" SIGNED-WITH-ANOTHER-KEY")
 		}
@@ -792,6 +831,12 @@ func c09Judge(c *mc.Ctx, cs *c09Case, devs string) {
 		if cs.sigs[i].wrongKey {
 			if reason == "" {
 				reason = "signature-invalid"
+			}
+			continue
+		}
+		if cs.sigs[i].tm.respell() != 0 {
+			if reason == "" || reason == "signature-invalid" {
+				reason = "parameter-out-of-range"
 			}
 			continue
 		}
@@ -818,7 +863,7 @@ func c09Judge(c *mc.Ctx, cs *c09Case, devs string) {
 		}
 		return
 	}
-	t := time.Unix(c09T0, cs.sigs[0].tm.nsec)
+	t := time.Unix(c09T0, cs.sigs[0].tm.ns())
 	got, logs, pan := c09Verify(e, t)
 	c.Traces(1)
 	if pan != nil {
@@ -1135,3 +1180,7 @@ func init() {
 		},
 	})
 }
+
+var bigOne = big.NewInt(1)
+
+func bigInt(v int64) *big.Int { return big.NewInt(v) }
